@@ -519,29 +519,51 @@ def stateCore (focus : String) (c : Case) : Acc × String := Id.run do
     --     reversed column order permutes blocks and coefficient columns
     if wants focus "stwins" then
       let tolT (a : Array Float) : Float := 256.0 * u * (max (arrMaxAbs a) 1e-300)
+      -- the S-column problem and the single problem run the same decomposition but different
+      -- product kernels (matrix·matrix / matrix·vector): their roundings differ by a few u of the
+      -- INTERMEDIATE magnitudes – Uᵀy/σ for the coefficients, |Φ||c| for the residuals, |D||c| for
+      -- the Jacobian – which for an ill-conditioned basis are far above the results themselves
+      let (sminK, smaxK) := match Pbefore.cached with
+        | some ch => let cd := condOf ch eps; (cd.sminKept, cd.smax)
+        | none => (1.0, 1.0)
+      let YwF := FMat.ofMat P.Yw
+      let yMaxCol (j : Nat) : Float := (Array.range n).foldl (fun a i => max a (YwF.get i j).abs) 0.0
+      let wmaxT : Float := match w with
+        | some wv => arrMaxAbs wv.toArray
+        | none => 1.0
+      let dmaxT : Float := step.tables.d.foldl (fun a f => match f with
+        | some g => max a (arrMaxAbs g.a)
+        | none => a) 0.0
+      let mixC (j : Nat) : Float := if sminK > 0.0 then yMaxCol j * (n.toFloat).sqrt / sminK else 0.0
       for j in [0:s] do
         let pre := s!"twinS{j}"
         if (step.obs.find? (·.1 == pre)).isSome then
           let t := step.get pre
+          let cj : Float := match t.coef with
+            | some (some y) => arrMaxAbs y.a
+            | _ => 0.0
           if let (some (some x), some (some y)) := (o.res, t.res) then
             let blk := x.extract (j * n) ((j + 1) * n)
             let d := maxDiff blk y
             acc := { acc with compared := acc.compared + 1 }
             -- relative to the block's OWN magnitude: right-hand sides are independent problems and may
             -- differ by hundreds of orders of magnitude
-            if !(d ≤ tolT y) then acc := { acc with mon := acc.mon.push s!"step{si}:{pre}-res:{fmtF d}" }
+            let tol := 256.0 * u * (max (max (arrMaxAbs y) 1e-300) (smaxK * m.toFloat * (cj + mixC j)))
+            if !(d ≤ tol) then acc := { acc with mon := acc.mon.push s!"step{si}:{pre}-res:{fmtF d}>tol={fmtF tol}" }
           else if let (some a, some b) := (o.res, t.res) then
             if a.isSome != b.isSome then acc := { acc with mon := acc.mon.push s!"step{si}:{pre}-res-presence" }
           if let (some (some x), some (some y)) := (o.coef, t.coef) then
             let colj := (Array.range m).map fun i => x.get i j
             let d := maxDiff colj y.a
             acc := { acc with compared := acc.compared + 1 }
-            if !(d ≤ tolT y.a) then acc := { acc with mon := acc.mon.push s!"step{si}:{pre}-coef:{fmtF d}" }
+            let tol := 256.0 * u * (max (max (arrMaxAbs y.a) 1e-300) (mixC j))
+            if !(d ≤ tol) then acc := { acc with mon := acc.mon.push s!"step{si}:{pre}-coef:{fmtF d}>tol={fmtF tol}" }
           if let (some (some x), some (some y)) := (o.jac, t.jac) then
             let blk := (FMat.ofFn n p fun i k => x.get (i + j * n) k).a
             let d := maxDiff blk y.a
             acc := { acc with compared := acc.compared + 1 }
-            if !(d ≤ tolT y.a) then acc := { acc with mon := acc.mon.push s!"step{si}:{pre}-jac:{fmtF d}" }
+            let tol := 256.0 * u * (max (max (arrMaxAbs y.a) 1e-300) (wmaxT * dmaxT * m.toFloat * (cj + mixC j)))
+            if !(d ≤ tol) then acc := { acc with mon := acc.mon.push s!"step{si}:{pre}-jac:{fmtF d}>tol={fmtF tol}" }
       if (step.obs.find? (·.1 == "twinR")).isSome then
         let t := step.get "twinR"
         if let (some (some x), some (some y)) := (o.res, t.res) then
